@@ -220,13 +220,16 @@ func (c *Conn) connect(ctx context.Context) error {
 	// of 2021-05-07. This will be fixed in a future release of Direwolf.
 	done := make(chan struct{}, 1)
 	defer close(done)
+	cancelled := make(chan bool, 1) // Reports whether the disconnect frame was sent.
 	go func() {
 		select {
 		case <-ctx.Done():
 			debugf("context cancellation - sending disconnect frame...")
 			c.p.write(disconnectFrame(c.srcCall, c.dstCall, c.p.port))
+			cancelled <- true
 		case <-done:
 			debugf("dial completed - context cancellation no longer possible")
+			cancelled <- false
 		}
 	}()
 
@@ -241,6 +244,10 @@ func (c *Conn) connect(ctx context.Context) error {
 	done <- struct{}{} // Dial cancellation is no longer possible.
 	switch f.DataKind {
 	case kindConnect:
+		if <-cancelled {
+			// The context expired while the connect notification was on its way. The link is being torn down.
+			return ctx.Err()
+		}
 		if !bytes.HasPrefix(f.Data, []byte("*** CONNECTED With ")) {
 			c.p.write(disconnectFrame(c.srcCall, c.dstCall, c.p.port))
 			return fmt.Errorf("connect precondition failed")
